@@ -836,7 +836,7 @@ pub fn subs() -> Vec<Box<dyn Sub>> {
         rule: "38 public constructors of both crates (all tag kinds incl. the three framebuffer variants, both EFI-map constructors, MemoryArea, TagHeader, generic custom tags; all 11 header-tag kinds). Enumerated: every constructor x content length 0..=40 with byte-marked arguments; generated: random / boundary argument words, contents up to 80 bytes. Oracle: type field == specified number == ID constant; size field == exact unpadded byte count; as_bytes()[..size] == the independent little-endian encoder's image (padding inside argument structs masked); accessors return the arguments; for sized tags as_bytes() works and agrees for the tag placed as local, boxed, array/vec element, and struct field behind a u32 / 12 bytes. Non-trivial = size not a multiple of 8 or all argument words non-zero; distinct by hash(spec image, constructor)",
         profiles: Profiles::Both,
         quick: 60000,
-        thorough: 1000000,
+        thorough: 4000000,
         strategy,
         enumerate: Some(enumerate),
         enum_exhaustive: false,
